@@ -43,7 +43,7 @@ def sens : P (Sens RF VF) := do
   let px ← many npix vec
   pure { pos := ps.map (·.1), ori := ps.map (·.2), pixels := px.map toF, pixShape := dims, left := left }
 
-def flipX (a : VF) : VF := ⟨-a.x, a.y, a.z⟩
+def flipX (a : VF) : VF := V3.flipX a
 
 def scene : P (List (Entry RF VF) × List (Sens RF VF)) := do
   let _ ← tok -- "F"
